@@ -570,3 +570,50 @@ class BuildMachineNominal:
                             and exists_int(lambda a, b: (a, b) in system_info and system_info[(a, b)].num_cores == result[0])
                             and exists_int(lambda a, b: (a, b) in system_info and system_info[(a, b)].largest_free_sdram_block == result[1])
                             and exists_int(lambda a, b: (a, b) in system_info and system_info[(a, b)].largest_free_sram_block == result[2])))
+
+
+# ---- get_software_version: the version reply decoded, and nothing about the controller changed ------------------------------------------
+from pyvc.values import TOpt   # noqa: E402,F401
+from pyvc.speclib import unopt   # noqa: E402,F401
+
+
+def _gsv_send(E, obj, args, kwargs, st, node):
+    s = st.copy()
+    s.trace = ListV(s.trace.items + (("_send_scp",) + tuple(args) + tuple(sorted(kwargs.items())),))
+    return [(s, ObjV("SCPPacket", {"arg1": st.env["g_arg1"], "arg2": st.env["g_arg2"], "arg3": st.env["g_arg3"]}), None)]
+
+
+def _gsv_unpack(E, args, kwargs, st, node):
+    return [(st, (z3.IntVal(101), z3.IntVal(102), z3.IntVal(103)))]
+
+
+def _gsv_coreinfo(E, args, kwargs, st, node):
+    names = ("position", "physical_cpu", "virt_cpu", "version", "buffer_size", "build_date", "version_string", "software_version_labels")
+    return [(st, ObjV("CoreInfo", dict(zip(names, args))))]
+
+
+@contract("rig/machine_control/machine_controller.py::MachineController.get_software_version")
+class SoftwareVersion:
+    """one version request to exactly the core named; the reply's first argument is (x << 24 | y << 16 | physical core << 8 |
+    virtual core), the low half of its second the buffer size the answering core advertises, the third the build date: reported as
+    they are.  Nothing is remembered on the controller - in particular what an arbitrary core advertises does not become the
+    size memory commands are cut to (that is the root monitor's answer, contract ScpDataLength)"""
+    properties = ("C14", "C07")
+    params = dict(self=TRec("MachineController", _scp_data_length=TOpt(TInt(1, None))), x=TInt(0, 255), y=TInt(0, 255), processor=TInt(0, 17),
+                  g_arg1=TInt(0, 0xffffffff), g_arg2=TInt(0, 0xffffffff), g_arg3=TInt(0, 0xffffffff))
+    externals = {"MachineController._send_scp": _gsv_send, "def:unpack_sver_response_version": _gsv_unpack, "class:CoreInfo": _gsv_coreinfo}
+    options = {"decorators": {"use_contextual_arguments": "identity"}, "int_class": "rig/machine_control/consts.py::SCPCommands"}
+    assumptions = ["ContextMixin.use_contextual_arguments treated as the identity (its resolution is property C18); _send_scp (contract MCSendScp, C18) "
+                   "is recorded and returns an arbitrary reply; unpack_sver_response_version (string decoding of the version text) and the CoreInfo "
+                   "constructor are opaque: which value goes into which field is what is checked"]
+
+    def native(x):
+        raise __import__("pyvc.replay", fromlist=["OutsideHarness"]).OutsideHarness()
+
+    def ensures_one_request_to_the_named_core_and_the_reply_decoded(self, self_post, x, y, processor, g_arg1, g_arg2, g_arg3, result, _trace):
+        return (len(_trace) == 1 and _trace[0] == ("_send_scp", x, y, processor, 0)
+                and result.position == (g_arg1 // 2**24, (g_arg1 // 2**16) % 256)
+                and result.physical_cpu == (g_arg1 // 256) % 256 and result.virt_cpu == g_arg1 % 256
+                and result.buffer_size == g_arg2 % 65536 and result.build_date == g_arg3
+                and result.version_string == 101 and result.version == 102 and result.software_version_labels == 103
+                and self_post._scp_data_length == self._scp_data_length)
